@@ -210,13 +210,22 @@ func c07Limits(c *ev.Ctx) {
 			continue
 		}
 		for step := 0; step < 8; step++ {
-			mode := 1 + r.Intn(4)
+			mode := 1 + r.Intn(5)
+			if step == 0 && variant%4 < 2 {
+				mode = 5
+			}
 			if step%2 == 1 {
-				mode = 0 // a run that must succeed, close to the engine's call-depth limit
+				mode = 0 // a run that must succeed, at the engine's call-depth limit
 			}
 			depth := 2000 + r.Intn(1500)
+			if mode == 5 {
+				depth = 15000 + r.Intn(10000) // runs into the call-depth limit itself
+			}
 			if mode == 0 {
-				depth = 9000 + r.Intn(900)
+				depth = 9999 // 10000 nested calls is the most the engine allows
+				if step%4 == 3 {
+					depth -= r.Intn(3)
+				}
 			}
 			obj := map[string]interface{}{"Mode": mode, "Depth": depth, "Zero": 0}
 			b, _ := eng.New(script, eng.Options{NoOptimize: variant%2 == 1, Budget: 50000000})
